@@ -66,6 +66,23 @@ def run(shard, rec):
         rec.violation(f'{gname}: constructing the group raised {type(e).__name__}: {e}', dict(feats, mechanism='construction'), {}, case=[gname, 'construct'])
         return
     rec.count('groups_covered')
+    # a sibling group of the same family is used first in this process (anything kept per family instead of per group would be stale afterwards)
+    sib_desc = {'qr': ['qr_l', 24], 'qr_l': ['qr', 11] if desc[1] != 11 else ['qr_l', 24], 'schnorr': ['schnorr_l', [48, 24]], 'schnorr_l': ['schnorr', [11, 5, 4]] if desc[1] != [11, 5, 4] else ['schnorr_l', [48, 24]],
+                'ec': ['ec', 'BN256' if desc[1] != 'BN256' else 'secp256k1', 'projective'] if desc[0] == 'ec' and not str(desc[1]).startswith('Ed') else (['ec', 'Ed448' if desc[1] == 'Ed25519' else 'Ed25519', 'projective'] if desc[0] == 'ec' else None),
+                'cl': ['cl', {'Delta': -47}]}.get(desc[0])
+    if sib_desc:
+        try:
+            S_ = make_group(sib_desc)
+            h_ = S_.generator
+            (h_ ^ 5) @ ~h_
+            if hasattr(S_, 'encode'):
+                M_, Z_ = S_.encode(3)
+                S_.decode(M_, Z_)
+            if hasattr(h_, 'normalize'):
+                (h_ @ h_).normalize()
+            rec.count('sibling_groups_used')
+        except Exception:
+            pass
     e = G.identity
     order = G.order
 
